@@ -14,7 +14,7 @@ use crate::spec::Canvas;
 
 pub const ENTRY: Entry = Entry {
     id: "C12",
-    variants: &["batch"],
+    variants: &["batch", "nobatch"],
     level: "fault_enumeration",
     rule: "deviation-bounded fault enumeration on the real transports (SPI with a 7-byte buffer, 8-bit and 16-bit parallel GPIO): for \
            every driver operation (Builder::init of every built-in model on every supported transport with and without reset pin; \
@@ -24,7 +24,8 @@ pub const ENTRY: Entry = Entry {
            failing (for data pins in both physical outcomes: level unchanged / level changed although an error was reported); \
            thorough adds a second fault at every index of the follow-up. Oracle: Err whose variant names the failing component and \
            carries the injected error; no panic; no further low-level operation after the failure; then, fault cleared, clear + \
-           set_pixel on the same object make the panel window equal to the canvas and touch nothing outside it; is_sleeping() reflects \
+           set_pixel on the same object make the panel window equal to the canvas and touch nothing outside it (also after \
+           retrying the very same call without a fault, which must succeed and take full effect); is_sleeping() reflects \
            the last successful sleep/wake. Non-trivial = every injected fault that fired (each is a distinct (operation, k, mode)).",
     assumptions: &[
         "a failed operation is not seen by the device (a failed strobe latches nothing, a failed SPI write delivers nothing)",
@@ -144,6 +145,11 @@ pub fn op_alphabet(lw: u32, lh: u32) -> Vec<(Vec<Op>, Op)> {
         (vec![Op::Sleep], Op::Wake),
         (vec![Op::Sleep], Op::Sleep),
         (vec![Op::SetOrientation(5)], Op::Clear { c: 0x00FF }),
+        // a solid fill, then a picture that starts with the fill colour and fails, then (follow-up) the same
+        // solid fill again: buffer / pattern caches that survive a failed transfer show here
+        (vec![Op::Clear { c: 0x0F0F }], Op::SetPixels { sx: 0, sy: 0, ex: 2, ey: 1, colors: Colors::List(vec![0x0F0F, 0x0102, 0x0304, 0x0506, 0x0708, 0x090A]) }),
+        (vec![Op::Clear { c: 0x0F0F }], Op::FillContiguous { r: full, colors: Colors::List((0..(lw * lh)).map(|k| if k == 0 { 0x0F0F } else { 0x1000 + k }).collect()) }),
+        (vec![Op::Clear { c: 0x0F0F }], Op::DrawIter(Pixels::List(vec![(0, 0, 0x0F0F), (1, 0, 0x0A01), (2, 0, 0x0A02), (0, 1, 0x0A03), (1, 1, 0x0A04), (2, 1, 0x0A05)]))),
     ];
     v.dedup();
     v
@@ -281,6 +287,41 @@ fn op_faults(ctx: &Ctx, acc: &mut Acc, cfg: &Cfg, prefix: &[Op], op: &Op, two: b
                             bad = mk("orientation-changed-by-failed-call", format!("orientation() = {} after the failed call, was {orient}", d.orientation()));
                         }
                     }
+                    if bad.is_none() && k2.is_none() {
+                        // second scenario on a fresh replay of the same failure: retry the very same call,
+                        // fault-free, and then draw - the retry must succeed and take full effect
+                        let mut r2 = Rig::new(cfg);
+                        for p in prefix {
+                            let _ = r2.apply(p);
+                        }
+                        r2.set_faults(&[Fault { at: base + k, mode }]);
+                        let _ = r2.apply(op);
+                        r2.set_faults(&[]);
+                        let o2 = r2.apply(op);
+                        let mut orient2 = orient;
+                        let mut sleeping2 = sleeping_before;
+                        match op {
+                            Op::SetOrientation(o) => orient2 = *o,
+                            Op::Sleep => sleeping2 = true,
+                            Op::Wake => sleeping2 = false,
+                            _ => {}
+                        }
+                        let d2 = r2.dut.as_ref().unwrap();
+                        if !o2.is_ok() {
+                            bad = mk("retry-failed", format!("the same call, retried without a fault, returned {o2:?}"));
+                        } else if d2.orientation() != orient2 || d2.is_sleeping() != sleeping2 {
+                            bad = mk("retry-without-effect", format!("after a successful retry orientation() = {} (expected {orient2}), is_sleeping() = {} (expected {sleeping2})", d2.orientation(), d2.is_sleeping()));
+                        } else {
+                            let geo2 = crate::spec::Geo { orient: orient2, ..cfg.geo() };
+                            let (lw2, lh2) = geo2.lsize();
+                            if d2.size() != (lw2, lh2) {
+                                bad = mk("retry-without-effect", format!("after a successful retry size() = {:?}, expected {lw2}x{lh2}", d2.size()));
+                            } else if let Some((s, m)) = follow_up(&mut r2, orient2, None).fail {
+                                bad = Some((format!("{}/retry/{s}", op.name()), format!("{:?} on {:?}, fault at index {k} ({mode:?}), then retried: {m}", op, cfg.tr)));
+                            }
+                        }
+                        acc.count("retries_after_failure", 1);
+                    }
                     if bad.is_none() {
                         let f2 = k2.map(|at| Fault { at, mode: FaultMode::Unchanged });
                         if let Some((s, m)) = follow_up(&mut rig, orient, f2).fail {
@@ -370,6 +411,7 @@ fn run(ctx: &Ctx) -> Part {
         part.require(&format!("variant:InitError::Interface({v})"), 1);
     }
     part.require("variant:InitError::ResetPin", 1);
+    part.require("retries_after_failure", 100);
     part
 }
 
